@@ -125,6 +125,14 @@ func (P *Program) LoadContracts() error {
 				if strings.Contains(ic.Name, "/") {
 					P.ifaces[ic.Name] = ic // interface of a dependency, full name
 					P.externIfaces = append(P.externIfaces, ic.Name)
+				} else if prev := P.ifaces[path+"."+ic.Name]; prev != nil {
+					// the same interface may be given in several blocks/files: merge the method contracts
+					for mn, mc := range ic.Methods {
+						if _, dup := prev.Methods[mn]; dup {
+							return fmt.Errorf("%s: duplicate contract for interface method %s.%s", m, ic.Name, mn)
+						}
+						prev.Methods[mn] = mc
+					}
 				} else {
 					P.ifaces[path+"."+ic.Name] = ic
 				}
